@@ -160,7 +160,8 @@ Inductive fpat :=
 | FTupS (n : string) (ps : list fpat)             (* :State(p, q) *)
 | FArr (pre : list pitem) (tl : atail).           (* [a b]  [a … z]  [h | t] *)
 
-Inductive tkind := KNext | KOut | KAsync.         (* -> p     => p     ~> p *)
+(* -> p     => p     ~> p;   KOutD: an output transition that the canonical printer must write `⇒ p` (see [gchain]) *)
+Inductive tkind := KNext | KOut | KAsync | KOutD.
 Definition trans := (tkind * fpat)%type.
 Definition guard := (bool * fpat * list trans)%type.      (* ├ cond -> p => q      flag = printed with └ *)
 Inductive arm :=
@@ -347,8 +348,13 @@ Fixpoint fmt_fpat (i : bool) (p : fpat) : list tok :=
   | FArr pre tl => TSym LB :: join [TSp] (map fmt_apart (parts pre tl)) ++ [TSym RB]
   end.
 
-Definition tsym (k : tkind) : sym := match k with KNext => Arrow | KOut => FatArrow | KAsync => TArrow end.
-Definition fmt_trans (i : bool) (t : trans) : list tok := TSp :: TSym (tsym (fst t)) :: TSp :: fmt_fpat i (snd t).
+(* Formatter::transition prints every output transition `=>`.  In a guard, state_machines.rs::fsm_guard tries a
+   statement transition `-> statement` first: after `-> x` (x an assignable target) the text ` => e` is read as the
+   assignment `x = > e`, whose failure is fatal.  There the grammar needs the spelling `⇒`: the canonical printer writes
+   it for the transitions marked KOutD (well-formedness puts the mark exactly there, [gchain]). *)
+Definition tsym (i : bool) (k : tkind) : sym :=
+  match k with KNext => Arrow | KOut => FatArrow | KAsync => TArrow | KOutD => if i then FatArrow else DArrow end.
+Definition fmt_trans (i : bool) (t : trans) : list tok := TSp :: TSym (tsym i (fst t)) :: TSp :: fmt_fpat i (snd t).
 Definition fmt_transs (i : bool) (ts : list trans) : list tok := flat_map (fmt_trans i) ts.
 
 (* `    ├ cond -> …` : four blanks, the branch glyph, a blank, the condition, the transitions *)
@@ -902,7 +908,13 @@ Fixpoint pfpat (n : nat) : parser fpat := fun ts =>
   end.
 
 Definition tkind_of (s : sym) : option tkind :=
-  match s with Arrow => Some KNext | FatArrow => Some KOut | TArrow => Some KAsync | _ => None end.
+  match s with Arrow => Some KNext | FatArrow => Some KOut | TArrow => Some KAsync | DArrow => Some KOutD | _ => None end.
+
+(* an assignable target: identifier with optional subscripts, no kind annotation *)
+Definition is_target (e : ex) : bool := match e with EVar _ None | ESlice _ _ => true | _ => false end.
+Definition is_ftarget (p : fpat) : bool := match p with FExp e => is_target e | _ => false end.
+Definition next_target (t : trans) : bool := match fst t with KNext => is_ftarget (snd t) | _ => false end.
+Definition starts_fat (r : list tok) : bool := match r with TSp :: TSym FatArrow :: _ => true | _ => false end.
 
 (* transition := ("->" | "=>" | "~>"), pattern *)
 Definition ptrans (n : nat) : parser trans := fun ts =>
@@ -915,6 +927,13 @@ Definition ptrans (n : nat) : parser trans := fun ts =>
   | _ => None
   end.
 
+(* a transition of a guard: `-> x => e` is read as the statement transition `-> x = > e` and fails *)
+Definition ptrans_g (n : nat) : parser trans := fun ts =>
+  match ptrans n ts with
+  | Some (t, r) => if next_target t && starts_fat r then None else Some (t, r)
+  | None => None
+  end.
+
 (* guard := guard-operator, pattern, transition+ *)
 Definition pguard (n : nat) : parser guard := fun ts =>
   match ts with
@@ -923,7 +942,7 @@ Definition pguard (n : nat) : parser guard := fun ts =>
       | Some (last, TSp :: r) =>
           match pfpat n r with
           | Some (c, r1) =>
-              match plist1 n sep_none (ptrans n) r1 with
+              match plist1 n sep_none (ptrans_g n) r1 with
               | Some (tr, r2) => Some ((last, c, tr), r2)
               | None => None
               end
@@ -1232,13 +1251,28 @@ Fixpoint wf_fpat (val : bool) (p : fpat) : bool :=
       else true
   end.
 
+Definition is_koutd (t : trans) : bool := match fst t with KOutD => true | _ => false end.
+
+(* the transitions of a plain arm: the spelling `=>` parses everywhere (fsm_transition tries the state transition first) *)
 Definition wf_transs (ts : list trans) : bool :=
-  negb (Nat.eqb (List.length ts) 0) && forallb (fun t => wf_fpat true (snd t)) ts.
+  negb (Nat.eqb (List.length ts) 0) && forallb (fun t => wf_fpat true (snd t) && negb (is_koutd t)) ts.
+
+(* the transitions of a guard: an output transition carries the mark KOutD exactly when it follows `-> target` *)
+Fixpoint gchain (ts : list trans) : bool :=
+  match ts with
+  | t1 :: ((t2 :: _) as r) => Bool.eqb (is_koutd t2) (next_target t1 && match fst t2 with KOut | KOutD => true | _ => false end) && gchain r
+  | _ => true
+  end.
+Definition wf_gtranss (ts : list trans) : bool :=
+  match ts with
+  | [] => false
+  | t :: _ => negb (is_koutd t) && forallb (fun t => wf_fpat true (snd t)) ts && gchain ts
+  end.
 
 (* the guards carry the glyph they are printed with: a single guard ├, otherwise ├ … ├ └ *)
 Definition guard_flags (l : list bool) : bool := match l with [b] => negb b | _ => last_flags l end.
 
-Definition wf_guard (g : guard) : bool := let '(_, c, ts) := g in wf_fpat false c && wf_transs ts.
+Definition wf_guard (g : guard) : bool := let '(_, c, ts) := g in wf_fpat false c && wf_gtranss ts.
 
 Definition wf_arm (a : arm) : bool :=
   match a with
@@ -1321,8 +1355,15 @@ Definition model_classes : list (string * (ex -> bool)) :=
 
 Definition c_any (e : ex) : bool := existsb (fun c => snd c e) model_classes.
 
-(* a program outside every class: on these formatter.rs and the canonical printer agree (Proofs/FmtP.v) *)
-Definition defect_free (p : prog) : bool := negb (exists_prog c_any p).
+(* the state-machine class: a guard with an output transition directly after `-> target` (formatter.rs prints `=>`) *)
+Definition guard_koutd (g : guard) : bool := existsb is_koutd (snd g).
+Definition arm_koutd (a : arm) : bool :=
+  match a with ATrans _ ts => existsb is_koutd ts | AGuard _ gs => existsb guard_koutd gs end.
+Definition stmt_koutd (s : stmt) : bool := match s with SFsmImpl _ _ _ arms => existsb arm_koutd arms | _ => false end.
+Definition prog_koutd (p : prog) : bool := existsb stmt_koutd p.
+
+(* a program outside every class: on these formatter.rs and the canonical printer agree (Proofs/Fmt3Q.v) *)
+Definition defect_free (p : prog) : bool := negb (exists_prog c_any p) && negb (prog_koutd p).
 
 (* A defect below the token level: Formatter::tuple and Formatter::bracket join the elements with a bare ","; when an
    element ends in a dot subscript `.a` and the next one begins with an identifier, the grammar's swizzle rule
@@ -1373,7 +1414,7 @@ Definition all_classes : list (string * (ex -> bool)) := model_classes ++ [("com
 Definition class_of (p : prog) : option string :=
   match filter (fun c => exists_prog (snd c) p) all_classes with
   | c :: _ => Some (fst c)
-  | [] => None
+  | [] => if prog_koutd p then Some "fsm-guard-arrow-reads-as-assignment" else None
   end.
 
 Definition is_panic (t : tok) : bool := match t with TSym SPanic => true | _ => false end.
@@ -1822,9 +1863,19 @@ Definition dec_trans (x : sx) : option trans :=
   | _ => None
   end.
 
+(* the decoder computes the marks: an output transition directly after `-> target` is KOutD *)
+Fixpoint set_outd (prev : bool) (ts : list trans) : list trans :=
+  match ts with
+  | [] => []
+  | t :: r =>
+      let t' := match fst t with KOut => if prev then (KOutD, snd t) else t | _ => t end in
+      t' :: set_outd (next_target t) r
+  end.
+
 Definition dec_guard (x : sx) : option (fpat * list trans) :=
   match x with
-  | Lx (Ax _ :: c :: ts) => match dec_fpat c, map_opt dec_trans ts with Some c, Some ts => Some (c, ts) | _, _ => None end
+  | Lx (Ax _ :: c :: ts) =>
+      match dec_fpat c, map_opt dec_trans ts with Some c, Some ts => Some (c, set_outd false ts) | _, _ => None end
   | _ => None
   end.
 
@@ -2019,11 +2070,72 @@ Definition c_tableor (p : prog) : bool :=
                     | _ => false
                     end) p.
 
+(* a fifth: Formatter::pattern_array joins the parts of an array pattern with blanks; an item (literal / variable)
+   followed by the wildcard reads `a * b`, which patterns.rs::pattern_array_item parses as ONE expression, the product
+   (and `[a *]`, `[a * | t]` do not parse).  The source spelling `[a, *, b]` denotes the three-item pattern. *)
+Fixpoint adj_wild (l : list apart) : bool :=
+  match l with
+  | a :: ((b :: _) as r) =>
+      (match a, b with AI IWild, _ => false | AI _, AI IWild => true | _, _ => false end) || adj_wild r
+  | _ => false
+  end.
+Fixpoint pat_arrwild (p : pat) : bool :=
+  match p with
+  | PItem _ => false
+  | PTup ps | PTupS _ ps => existsb pat_arrwild ps
+  | PArr pre tl => adj_wild (parts pre tl)
+  end.
+Fixpoint fpat_arrwild (p : fpat) : bool :=
+  match p with
+  | FWild | FExp _ => false
+  | FTup ps | FTupS _ ps => existsb fpat_arrwild ps
+  | FArr pre tl => adj_wild (parts pre tl)
+  end.
+Definition transs_arrwild (ts : list trans) : bool := existsb (fun t => fpat_arrwild (snd t)) ts.
+Definition arm_arrwild (a : arm) : bool :=
+  match a with
+  | ATrans p ts => fpat_arrwild p || transs_arrwild ts
+  | AGuard p gs => fpat_arrwild p || existsb (fun g => fpat_arrwild (snd (fst g)) || transs_arrwild (snd g)) gs
+  end.
+Definition rhs_arrwild (r : rhs) : bool :=
+  match r with
+  | RMatch _ arms => existsb (fun a => pat_arrwild (snd (fst (fst a)))) arms
+  | RCompr _ _ qs => existsb (fun q => match q with QGen p _ => pat_arrwild p | _ => false end) qs
+  | _ => false
+  end.
+Definition c_arrwild (p : prog) : bool :=
+  existsb (fun s => match s with
+                    | SDefine _ _ _ r | SAssign _ _ r | SOpAssign _ _ _ r | SExpr r => rhs_arrwild r
+                    | SFun _ _ _ arms => existsb (fun a => pat_arrwild (snd (fst a))) arms
+                    | SFsmImpl _ _ st arms => fpat_arrwild st || existsb arm_arrwild arms
+                    | _ => false
+                    end) p.
+
+(* a sixth, the same mechanism as the class [prog_koutd] but below the token level: in a guard, `-> x =:= y` (a formula
+   that begins with an assignable target followed by an operator whose text begins with `=`) is read as the statement
+   transition `-> x = :=…`.  The source spelling `-> x ≡ y` parses; formatter.rs prints `=:=`. *)
+Fixpoint lead_eq (e : ex) : bool :=
+  match e with
+  | ETerm l ((o, _) :: _) => (is_target l && match o with OSEq | OSNeq => true | _ => false end) || lead_eq l
+  | ERange a _ _ _ => lead_eq a
+  | _ => false
+  end.
+Definition guard_assign (g : guard) : bool :=
+  existsb (fun t => match t with (KNext, FExp e) => lead_eq e | _ => false end) (snd g).
+Definition c_guardassign (p : prog) : bool :=
+  existsb (fun s => match s with
+                    | SFsmImpl _ _ _ arms =>
+                        existsb (fun a => match a with AGuard _ gs => existsb guard_assign gs | _ => false end) arms
+                    | _ => false
+                    end) p.
+
 Definition lex_class_of (p : prog) : option string :=
   if exists_prog c_commaswizzle p then Some "comma-swizzle"
   else if c_rowbinding p then Some "table-row-reads-as-record"
   else if exists_prog c_mapnot p then Some "map-keys-read-as-record"
   else if c_tableor p then Some "table-cell-or"
+  else if c_arrwild p then Some "array-pattern-item-then-wildcard"
+  else if c_guardassign p then Some "fsm-guard-arrow-reads-as-assignment"
   else None.
 
 (* classes in which the real grammar reads the SOURCE text of the case as another tree than p *)
